@@ -595,7 +595,7 @@ def full_api_histories(rep, seed, n=60):
         rep.replayed(1)
         probe_begin()
         try:
-            rec_kind = rnd.choice(["arr", "utpm"] if f not in (p_rational, p_const_into_buffer) else ["arr", "utpm", "iarr", "iarr"])
+            rec_kind = rnd.choice(["arr", "utpm"])
             x0 = numpy.array([0.3, 0.6, 0.9, 0.5]) if rec_kind == "arr" else algopy.UTPM(numpy.array([[[0.3, 0.6, 0.9, 0.5]]]))
             cg = record(f, x0)
             # reference: a fresh graph, one forward, one sweep
@@ -624,6 +624,45 @@ def full_api_histories(rep, seed, n=60):
         except Exception as ex:
             rep.violation(sig + " raises " + type(ex).__name__, {"kind": kind, "ops": names, "what": repr(ex)[-300:]})
         probe_end(sig + " #%d" % it)
+
+
+def dtype_histories(rep, seed):
+    """C06: the same graph evaluated and swept with real data, then with complex data of the same degree, direction count
+    and shape (and back): every sweep must equal the sweep of a fresh graph"""
+    import random
+    algopy = load_algopy()
+    rnd = random.Random(seed + 23)
+
+    def f(x):
+        b = algopy.zeros(2, dtype=x)
+        b[0] = x[0] * x[1]
+        b[1] = b[0] * x[2] + x[3]
+        return algopy.sum(x * x * x[::-1]) + algopy.dot(b, b) * x[0] + algopy.sum(algopy.exp(x * 0.25) / (x * x + 2.0))
+
+    def rec():
+        cg = algopy.CGraph(); x = algopy.Function(numpy.array([0.3, 0.6, 0.9, 0.5])); y = f(x); cg.trace_off()
+        cg.independentFunctionList = [x]; cg.dependentFunctionList = [y]
+        return cg
+    for it in range(12):
+        D = rnd.choice([1, 2, 3]); P = rnd.choice([1, 2])
+        mk = {"real": lambda: numpy.array([[[rnd.uniform(0.2, 1.2) for _ in range(4)] for _ in range(P)] for _ in range(D)]),
+              "complex": lambda: numpy.array([[[complex(rnd.uniform(0.2, 1.2), rnd.uniform(-0.5, 0.5)) for _ in range(4)] for _ in range(P)] for _ in range(D)])}
+        sd = {"real": lambda: numpy.array([[rnd.uniform(-1, 1) for _ in range(P)] for _ in range(D)]),
+              "complex": lambda: numpy.array([[complex(rnd.uniform(-1, 1), rnd.uniform(-1, 1)) for _ in range(P)] for _ in range(D)])}
+        order = rnd.choice([("real", "complex", "real"), ("complex", "real", "complex"), ("real", "complex", "complex")])
+        cg = rec()
+        rep.case(("dtype-history", it, D, P, order), nontrivial=True); rep.replayed(1)
+        try:
+            for k, kind in enumerate(order):
+                x = mk[kind](); s_ = sd[kind]()
+                cg.pushforward([algopy.UTPM(x.copy())]); cg.pullback([algopy.UTPM(s_.copy())])
+                got = cg.independentFunctionList[0].xbar.data.copy()
+                fresh = rec(); fresh.pushforward([algopy.UTPM(x.copy())]); fresh.pullback([algopy.UTPM(s_.copy())])
+                ref = fresh.independentFunctionList[0].xbar.data
+                if got.shape != ref.shape or not numpy.allclose(got, ref, rtol=1e-10, atol=1e-12):
+                    rep.violation("sweep with %s data after sweeps with %s data differs from a fresh graph" % (kind, "/".join(order[:k]) or "no"), {"D": D, "P": P, "order": list(order)}); break
+        except Exception as ex:
+            rep.violation("dtype history raises " + type(ex).__name__, {"what": repr(ex)[-300:], "order": list(order)})
 
 
 def jacobian_utpm_check(rep, seed):
